@@ -55,6 +55,37 @@ Theorem C16_history_independent_repo : forall create_out load_out cls_gram ops s
 Proof. exact src_history_independent_repo. Qed.
 Print Assumptions C16_history_independent_repo.
 
+(* Loads started from inside a load (operation `Nested`; histories in all theorems above may contain them).
+   From an object or model processor the outer load has already restored its classes: the inner load is an
+   ordinary load. From a scope provider the outer load still holds the instrumentation of its user classes; the
+   inner load then sees the fresh view except for the counters of the classes it shares with the outer load
+   (nested_provider_view), so under `instr_blind` it answers exactly what the same load answers at top level. *)
+Theorem C16_nested_provider_inner : forall create_out load_out cls_gram st s m i s' m' i',
+  inv src_facts create_out cls_gram st -> instr_blind load_out ->
+  slots st s = Some m -> slots st s' = Some m' ->
+  snd (step src_facts create_out load_out st (Nested s i PhProvider s' i'))
+  = ONest (load_out (m_cfg m) i (fresh_view (m_cfg m) (if c_repo (m_cfg m) then m_repo m else [])))
+          (result src_facts create_out load_out st (Load s' i')).
+Proof. exact src_nested_provider_inner. Qed.
+Print Assumptions C16_nested_provider_inner.
+
+(* `instr_blind` is necessary: with an outcome that reads the counters (the code before the fix c78a09e bypassed a user
+   class's own __setattr__ for finished objects of an instrumented class) the load started by a provider differs.
+   Witness replayed on the implementation: corpus/C16/nested_load_from_provider.json. *)
+Theorem C16_nested_provider_refuted :
+  let st := final good_facts wit_create wit_load [New 0 wit_cfg] in
+  snd (step good_facts wit_create wit_load st (Nested 0 1 PhProvider 0 1))
+  <> ONest (wit_load wit_cfg 1 (fresh_view wit_cfg [])) (result good_facts wit_create wit_load st (Load 0 1)).
+Proof. exact nested_provider_refuted. Qed.
+Print Assumptions C16_nested_provider_refuted.
+
+Example C16_nested_nonvacuous :
+  instr_blind wit_load_blind /\
+  slots (final src_facts wit_create wit_load_blind [New 0 wit_cfg; New 1 wit_repo_cfg; Nested 0 4 PhProvider 1 5; Nested 1 6 PhAfter 0 1]) 0 <> None /\
+  slots (final src_facts wit_create wit_load_blind [New 0 wit_cfg; New 1 wit_repo_cfg; Nested 0 4 PhProvider 1 5; Nested 1 6 PhAfter 0 1]) 1 <> None.
+Proof. exact (conj wit_blind wit_nested_slots). Qed.
+Print Assumptions C16_nested_nonvacuous.
+
 (* creating a metamodel (successfully or not) is history independent as well *)
 Theorem C16_creation_independent : forall create_out load_out cls_gram ops s c,
   cache_ok src_facts create_out -> Forall (wf_op cls_gram) ops ->
